@@ -123,7 +123,8 @@ Lemma frame_ser_leaf b ws t x : frame (ser_leaf b ws t x).
 Proof.
   unfold ser_leaf. destruct (negb _); [apply frame_fail|]. destruct (negb _); [apply frame_fail|].
   destruct (leaf_bytes x); [|apply frame_fail].
-  destruct (uses_builder b); [apply frame_builder, frame_append|apply frame_set_value].
+  destruct (uses_builder b); [apply frame_builder|]; destruct (value_overflow b x);
+    try apply frame_fail; try apply frame_append; apply frame_set_value.
 Qed.
 
 (* ---- top-level twins of the nested loops of ser_dyn / ser_buf --------------------------- *)
@@ -363,7 +364,9 @@ Lemma sized_ser_leaf b t x : sized_w (ser_leaf b true t x).
 Proof.
   unfold ser_leaf. destruct (negb _); [apply sized_fail|]. destruct (negb _); [apply sized_fail|].
   destruct (leaf_bytes x); [|apply sized_fail].
-  destruct (uses_builder b); [apply sized_builder, frame_append|apply sized_set_value].
+  destruct (uses_builder b).
+  - apply sized_builder. destruct (value_overflow b x); [apply frame_fail|apply frame_append].
+  - destruct (value_overflow b x); [apply sized_fail|apply sized_set_value].
 Qed.
 
 Lemma sized_sequence {A} (f : A -> writer) l : (forall x, In x l -> frame (f x)) -> sized_w (w_sequence true f l).
@@ -1047,7 +1050,11 @@ Lemma good_ser_leaf b ws t x : native_in t (ser_base_types b) = true -> base_pay
 Proof.
   intros Ht Hp. unfold ser_leaf. rewrite Ht, Hp. cbn [negb].
   destruct (leaf_bytes x) as [c|] eqn:E.
-  - destruct (uses_builder b); [apply good_builder; [apply frame_append|apply good_append]|apply good_set_value].
+  - assert (Gv : good KE_ValueOverflow) by (split; [reflexivity|discriminate]).
+    destruct (uses_builder b).
+    + apply good_builder; destruct (value_overflow b x);
+        try apply frame_fail; try apply frame_append; try (apply good_fail, Gv); apply good_append.
+    + destruct (value_overflow b x); [apply good_fail, Gv|apply good_set_value].
   - exfalso. apply (leaf_bytes_payload x); [|exact E]. unfold base_payload in Hp. destruct (payload_kind x); congruence.
 Qed.
 
@@ -1455,9 +1462,9 @@ Section errs_in.
   Qed.
 
   Lemma in_ser_leaf b ws t x : native_in t (ser_base_types b) = true -> base_payload b x = true ->
-    errs_in (ser_leaf b ws t x).
+    value_overflow b x = false -> errs_in (ser_leaf b ws t x).
   Proof.
-    intros Ht Hp. unfold ser_leaf. rewrite Ht, Hp. cbn [negb].
+    intros Ht Hp Ho. unfold ser_leaf. rewrite Ht, Hp, Ho. cbn [negb].
     destruct (leaf_bytes x) as [c|] eqn:E.
     - destruct (uses_builder b); [apply in_builder; [apply frame_append|apply in_append]|apply in_set_value].
     - exfalso. apply (leaf_bytes_payload x); [|exact E]. unfold base_payload in Hp. destruct (payload_kind x); congruence.
@@ -1478,17 +1485,17 @@ Fixpoint fits_tuple_go (f : ctype -> cval -> bool) (ts : list ctype) (l : list (
   | _, _ => true
   end.
 
-Lemma dyn_fits_udt ks' nm' fts ks nm fields :
-  dyn_fits (TUdt ks' nm' fts) (CUdt ks nm fields) =
-  bytes_eqb ks ks' && bytes_eqb nm nm' && fits_udt_go dyn_fits fts fields.
+Lemma dyn_fits_udt s ks' nm' fts ks nm fields :
+  dyn_fits_gen s (TUdt ks' nm' fts) (CUdt ks nm fields) =
+  bytes_eqb ks ks' && bytes_eqb nm nm' && fits_udt_go (dyn_fits_gen s) fts fields.
 Proof.
-  cbn [dyn_fits]. f_equal. revert fields. induction fts as [|[fname ft] r IH]; intros st; [reflexivity|].
+  cbn [dyn_fits_gen]. f_equal. revert fields. induction fts as [|[fname ft] r IH]; intros st; [reflexivity|].
   cbn [fits_udt_go]. rewrite <- IH. reflexivity.
 Qed.
-Lemma dyn_fits_tuple ts l :
-  dyn_fits (TTuple ts) (CTuple l) = (List.length l <=? List.length ts)%nat && fits_tuple_go dyn_fits ts l.
+Lemma dyn_fits_tuple s ts l :
+  dyn_fits_gen s (TTuple ts) (CTuple l) = (List.length l <=? List.length ts)%nat && fits_tuple_go (dyn_fits_gen s) ts l.
 Proof.
-  cbn [dyn_fits]. f_equal. revert l. induction ts as [|et ts' IH]; intros l; [reflexivity|].
+  cbn [dyn_fits_gen]. f_equal. revert l. induction ts as [|et ts' IH]; intros l; [reflexivity|].
   destruct l as [|ox l']; [reflexivity|]. cbn [fits_tuple_go]. rewrite <- IH. reflexivity.
 Qed.
 
@@ -1496,15 +1503,17 @@ Definition is_leaf (v : cval) : bool := match payload_kind v with Some _ => true
 
 Lemma leaf_payload_ok v : is_leaf v = true -> base_payload (dyn_base v) v = true.
 Proof. destruct v; try discriminate; reflexivity. Qed.
+(* serialize_cql_value never dispatches to one of the two converting carriers *)
+Lemma dyn_no_overflow v : value_overflow (dyn_base v) v = false.
+Proof. destruct v; reflexivity. Qed.
 
 Lemma ser_dyn_leaf ws t v : is_leaf v = true -> ser_dyn ws t v = ser_leaf (dyn_base v) ws t v.
 Proof. destruct v; try discriminate; intros _; destruct t; reflexivity. Qed.
 
-Lemma dyn_fits_leaf t v : is_leaf v = true -> dyn_fits t v = native_in t (ser_base_types (dyn_base v)).
+Lemma dyn_fits_leaf s t v : is_leaf v = true -> dyn_fits_gen s t v = native_in t (ser_base_types (dyn_base v)).
 Proof.
   destruct v; try discriminate; intros _; destruct t as [n| | | | | |]; try reflexivity; destruct n; reflexivity.
 Qed.
-
 
 Lemma size_dyn_tuple_go (f : ctype -> cval -> writer) (g : ctype -> cval -> bool) ts :
   Forall (fun et => forall x, frame (f et x) /\ (g et x = true -> size_errs (f et x))) ts ->
@@ -1527,39 +1536,40 @@ Proof.
     destruct (udt_field_value fname st); [now apply Hft|apply in_append].
 Qed.
 
-(* a value of the type is never refused by a type check (nor by the vector length check): what can
-   still fail is a size beyond the i32 limits of the wire format *)
-Theorem dyn_accept t : forall ws v, dyn_fits t v = true -> size_errs (ser_dyn ws t v).
+(* a value of the type - with or without the vector element rule - is never refused by a type check
+   (nor by the vector length check): what can still fail is a size beyond the i32 limits *)
+Theorem dyn_accept_gen s t : forall ws v, dyn_fits_gen s t v = true -> size_errs (ser_dyn ws t v).
 Proof.
   induction t as [n|e IHe|e IHe|k e IHk IHe|ts IHts|ks' nm' fts IHfs|e d IHe] using ctype_ind'; intros ws v Hf.
   all: destruct (is_leaf v) eqn:El;
     [rewrite ser_dyn_leaf by exact El; rewrite dyn_fits_leaf in Hf by exact El;
-     apply in_ser_leaf; auto using leaf_payload_ok|].
+     apply in_ser_leaf; auto using leaf_payload_ok, dyn_no_overflow|].
   all: destruct v; try discriminate El; try discriminate Hf.
-  all: try (cbn [ser_dyn dyn_fits] in *; rewrite Hf; apply in_set_value; reflexivity).
-  all: try (cbn [ser_dyn dyn_fits] in *; rewrite forallb_forall in Hf; apply in_sequence; try reflexivity;
+  all: try (cbn [ser_dyn dyn_fits_gen] in *; rewrite Hf; apply in_set_value; reflexivity).
+  all: try (cbn [ser_dyn dyn_fits_gen] in *; rewrite forallb_forall in Hf; apply in_sequence; try reflexivity;
             intros x Hx; split; [apply frame_ser_dyn|apply IHe; auto]).
-  - cbn [ser_dyn dyn_fits] in *. rewrite forallb_forall in Hf. apply in_mapping; try reflexivity. intros kv Hkv.
+  - cbn [ser_dyn dyn_fits_gen] in *. rewrite forallb_forall in Hf. apply in_mapping; try reflexivity. intros kv Hkv.
     specialize (Hf kv Hkv). apply andb_prop in Hf as [H1 H2].
     split; (split; [apply frame_ser_dyn|]); [apply IHk|apply IHe]; auto.
   - rewrite ser_dyn_tuple. rewrite dyn_fits_tuple in Hf. apply andb_prop in Hf as [Hl Hf].
     assert ((List.length ts <? List.length l)%nat = false) as -> by (apply Nat.ltb_ge, Nat.leb_le, Hl).
     apply in_builder; try reflexivity.
     + apply frame_dyn_tuple_go, Forall_forall. intros; apply frame_ser_dyn.
-    + apply size_dyn_tuple_go with (g := dyn_fits); [|exact Hf].
+    + apply size_dyn_tuple_go with (g := dyn_fits_gen s); [|exact Hf].
       eapply Forall_impl; [|exact IHts]. intros a Ha x. split; [apply frame_ser_dyn|apply Ha].
   - rewrite ser_dyn_udt. rewrite dyn_fits_udt in Hf. apply andb_prop in Hf as [Hn Hf]. rewrite Hn. cbn [negb].
     apply in_builder; try reflexivity.
     + apply frame_dyn_udt_go, Forall_forall. intros; apply frame_ser_dyn.
-    + apply size_dyn_udt_go with (g := dyn_fits); [|exact Hf].
+    + apply size_dyn_udt_go with (g := dyn_fits_gen s); [|exact Hf].
       eapply Forall_impl; [|exact IHfs]. intros a Ha x. split; [apply frame_ser_dyn|apply Ha].
-  - cbn [ser_dyn dyn_fits] in *. apply andb_prop in Hf as [Hd Hf]. apply andb_prop in Hd as [Hd _]. rewrite forallb_forall in Hf.
+  - cbn [ser_dyn dyn_fits_gen] in *. apply andb_prop in Hf as [Hd Hf]. apply andb_prop in Hd as [Hd _]. rewrite forallb_forall in Hf.
     apply in_vector; try reflexivity; [exact Hd|]. intros x Hx. split; [apply frame_ser_dyn|apply IHe; auto].
-  - cbn [ser_dyn dyn_fits] in *. apply andb_prop in Hf as [Hd Hf]. apply andb_prop in Hd as [Hd _]. rewrite forallb_forall in Hf.
+  - cbn [ser_dyn dyn_fits_gen] in *. apply andb_prop in Hf as [Hd Hf]. apply andb_prop in Hd as [Hd _]. rewrite forallb_forall in Hf.
     apply in_vector; try reflexivity; [exact Hd|]. intros x Hx. split; [apply frame_ser_dyn|apply IHe; auto].
-  - cbn [ser_dyn dyn_fits] in *. apply andb_prop in Hf as [Hd Hf]. apply andb_prop in Hd as [Hd _]. rewrite forallb_forall in Hf.
+  - cbn [ser_dyn dyn_fits_gen] in *. apply andb_prop in Hf as [Hd Hf]. apply andb_prop in Hd as [Hd _]. rewrite forallb_forall in Hf.
     apply in_vector; try reflexivity; [exact Hd|]. intros x Hx. split; [apply frame_ser_dyn|apply IHe; auto].
 Qed.
+Definition dyn_accept := dyn_accept_gen true.
 
 Lemma forallb_false_ex {A} (f : A -> bool) l : forallb f l = false -> exists x, In x l /\ f x = false.
 Proof.
@@ -1568,90 +1578,75 @@ Proof.
   - destruct (IH H) as (y & Hy & Hf). exists y. split; [now right|exact Hf].
 Qed.
 
-Fixpoint known_udt_go (f : ctype -> cval -> bool) (fts : list (name * ctype)) (st : list (name * option cval)) : bool :=
-  match fts with
-  | [] => false
-  | (fname, ft) :: r =>
-      match udt_field_value fname st with None => false | Some x => f ft x end || known_udt_go f r (remove_name fname st)
-  end.
-Fixpoint known_tuple_go (f : ctype -> cval -> bool) (ts : list ctype) (l : list (option cval)) : bool :=
-  match ts, l with
-  | et :: ts', ox :: l' => match ox with None => false | Some x => f et x end || known_tuple_go f ts' l'
-  | _, _ => false
-  end.
-Lemma dyn_known_udt ks' nm' fts ks nm fields :
-  dyn_known (TUdt ks' nm' fts) (CUdt ks nm fields) = known_udt_go dyn_known fts fields.
+Lemma fails_dyn_tuple_go (f : ctype -> cval -> writer) (g : ctype -> cval -> bool) ts :
+  Forall (fun et => forall x, frame (f et x) /\ (g et x = false -> fails (f et x))) ts ->
+  forall l, fits_tuple_go g ts l = false -> fails (dyn_tuple_go f ts l).
 Proof.
-  cbn [dyn_known]. revert fields. induction fts as [|[fname ft] r IH]; intros st; [reflexivity|].
-  cbn [known_udt_go]. rewrite <- IH. reflexivity.
-Qed.
-Lemma dyn_known_tuple ts l : dyn_known (TTuple ts) (CTuple l) = known_tuple_go dyn_known ts l.
-Proof.
-  cbn [dyn_known]. revert l. induction ts as [|et ts' IH]; intros l; [reflexivity|].
-  destruct l as [|ox l']; [reflexivity|]. cbn [known_tuple_go]. rewrite <- IH. reflexivity.
-Qed.
-
-Lemma fails_dyn_tuple_go (f : ctype -> cval -> writer) (g kc : ctype -> cval -> bool) ts :
-  Forall (fun et => forall x, frame (f et x) /\ (g et x = false -> kc et x = false -> fails (f et x))) ts ->
-  forall l, fits_tuple_go g ts l = false -> known_tuple_go kc ts l = false -> fails (dyn_tuple_go f ts l).
-Proof.
-  induction 1 as [|et ts' Het Hts IH]; intros l Hl Hk; [discriminate|].
-  destruct l as [|ox l']; [discriminate|]. cbn [dyn_tuple_go fits_tuple_go known_tuple_go] in *.
-  apply orb_false_elim in Hk as [K1 K2]. apply andb_false_elim in Hl as [H1|H2].
+  induction 1 as [|et ts' Het Hts IH]; intros l Hl; [discriminate|].
+  destruct l as [|ox l']; [discriminate|]. cbn [dyn_tuple_go fits_tuple_go] in *.
+  apply andb_false_elim in Hl as [H1|H2].
   - apply fails_then_l. destruct ox; [now apply Het|discriminate].
   - apply fails_then_r; [|now apply IH]. apply frame_dyn_tuple_go. eapply Forall_impl; [|exact Hts]. intros a Ha x; apply Ha.
 Qed.
 
-Lemma fails_dyn_udt_go (f : ctype -> cval -> writer) (g kc : ctype -> cval -> bool) fts :
-  Forall (fun ft => forall x, frame (f (snd ft) x) /\ (g (snd ft) x = false -> kc (snd ft) x = false -> fails (f (snd ft) x))) fts ->
-  forall st, fits_udt_go g fts st = false -> known_udt_go kc fts st = false -> fails (dyn_udt_go f fts st).
+Lemma fails_dyn_udt_go (f : ctype -> cval -> writer) (g : ctype -> cval -> bool) fts :
+  Forall (fun ft => forall x, frame (f (snd ft) x) /\ (g (snd ft) x = false -> fails (f (snd ft) x))) fts ->
+  forall st, fits_udt_go g fts st = false -> fails (dyn_udt_go f fts st).
 Proof.
-  induction 1 as [|[fname ft] r Hft Hr IH]; intros st Hs Hk; cbn [dyn_udt_go fits_udt_go known_udt_go] in *.
+  induction 1 as [|[fname ft] r Hft Hr IH]; intros st Hs; cbn [dyn_udt_go fits_udt_go] in *.
   - rewrite Hs. apply fails_fail.
-  - apply orb_false_elim in Hk as [K1 K2]. apply andb_false_elim in Hs as [H1|H2].
+  - apply andb_false_elim in Hs as [H1|H2].
     + apply fails_then_l. destruct (udt_field_value fname st); [now apply Hft|discriminate].
     + apply fails_then_r; [|now apply IH]. apply frame_dyn_udt_go. eapply Forall_impl; [|exact Hr]. intros a Ha x; apply Ha.
 Qed.
 
-(* a CqlValue that is not a value of the column type - at whatever depth the misfit sits - is
-   refused, outside the known class (an Empty element of a vector with fixed-width elements) *)
-Theorem dyn_reject t : forall ws v, dyn_fits t v = false -> dyn_known t v = false -> fails (ser_dyn ws t v).
+(* a CqlValue that is not a value of the column type even WITHOUT the vector element rule - at
+   whatever depth the misfit sits - is refused.  No class premise: what the code lacks is exactly
+   that one rule. *)
+Theorem dyn_reject_lax t : forall ws v, dyn_lax t v = false -> fails (ser_dyn ws t v).
 Proof.
-  induction t as [n|e IHe|e IHe|k e IHk IHe|ts IHts|ks' nm' fts IHfs|e d IHe] using ctype_ind'; intros ws v Hf Hk.
+  unfold dyn_lax.
+  induction t as [n|e IHe|e IHe|k e IHk IHe|ts IHts|ks' nm' fts IHfs|e d IHe] using ctype_ind'; intros ws v Hf.
   all: destruct (is_leaf v) eqn:El;
     [rewrite ser_dyn_leaf by exact El; rewrite dyn_fits_leaf in Hf by exact El; apply fails_ser_leaf; exact Hf|].
   all: destruct v; try discriminate El; try discriminate Hf.
-  all: try (cbn [ser_dyn dyn_fits] in *; try rewrite Hf; apply fails_fail).
-  all: try (cbn [ser_dyn dyn_fits dyn_known] in *; apply forallb_false_ex in Hf as (x & Hx & Hfx);
-            apply fails_sequence with x; [intros; apply frame_ser_dyn|exact Hx|apply IHe; [exact Hfx|exact (existsb_false _ _ Hk x Hx)]]).
-  - cbn [ser_dyn dyn_fits dyn_known] in *. apply forallb_false_ex in Hf as (kv & Hkv & Hfx).
-    pose proof (existsb_false _ _ Hk kv Hkv) as Hkk. cbn beta in Hkk. apply orb_false_elim in Hkk as [K1 K2].
+  all: try (cbn [ser_dyn dyn_fits_gen] in *; try rewrite Hf; apply fails_fail).
+  all: try (cbn [ser_dyn dyn_fits_gen] in *; apply forallb_false_ex in Hf as (x & Hx & Hfx);
+            apply fails_sequence with x; [intros; apply frame_ser_dyn|exact Hx|apply IHe, Hfx]).
+  - cbn [ser_dyn dyn_fits_gen] in *. apply forallb_false_ex in Hf as (kv & Hkv & Hfx).
     apply fails_mapping with kv; [intros; split; apply frame_ser_dyn|exact Hkv|].
-    apply andb_false_elim in Hfx as [H|H]; [left; apply IHk; assumption|right; apply IHe; assumption].
-  - rewrite ser_dyn_tuple. rewrite dyn_fits_tuple in Hf. rewrite dyn_known_tuple in Hk.
+    apply andb_false_elim in Hfx as [H|H]; [left; apply IHk, H|right; apply IHe, H].
+  - rewrite ser_dyn_tuple. rewrite dyn_fits_tuple in Hf.
     destruct (List.length ts <? List.length l)%nat eqn:E; [apply fails_fail|].
     apply Nat.ltb_ge, Nat.leb_le in E. rewrite E in Hf. cbn [andb] in Hf.
     apply fails_builder; [apply frame_dyn_tuple_go, Forall_forall; intros; apply frame_ser_dyn|].
-    apply fails_dyn_tuple_go with (g := dyn_fits) (kc := dyn_known); [|exact Hf|exact Hk].
+    apply fails_dyn_tuple_go with (g := dyn_fits_gen false); [|exact Hf].
     eapply Forall_impl; [|exact IHts]. intros a Ha x. split; [apply frame_ser_dyn|apply Ha].
-  - rewrite ser_dyn_udt. rewrite dyn_fits_udt in Hf. rewrite dyn_known_udt in Hk.
+  - rewrite ser_dyn_udt. rewrite dyn_fits_udt in Hf.
     destruct (bytes_eqb ks ks' && bytes_eqb nm nm'); cbn [negb andb] in *; [|apply fails_fail].
     apply fails_builder; [apply frame_dyn_udt_go, Forall_forall; intros; apply frame_ser_dyn|].
-    apply fails_dyn_udt_go with (g := dyn_fits) (kc := dyn_known); [|exact Hf|exact Hk].
+    apply fails_dyn_udt_go with (g := dyn_fits_gen false); [|exact Hf].
     eapply Forall_impl; [|exact IHfs]. intros a Ha x. split; [apply frame_ser_dyn|apply Ha].
-  - cbn [ser_dyn dyn_fits dyn_known] in *. apply orb_false_elim in Hk as [K1 K2].
-    destruct (N.of_nat (List.length l) =? d) eqn:Ed; cbn [andb] in *; [|unfold w_vector; rewrite Ed; apply fails_fail].
-    rewrite K1 in Hf. cbn [negb andb] in Hf. apply forallb_false_ex in Hf as (x & Hx & Hfx).
-    apply fails_vector with x; [intros; apply frame_ser_dyn|exact Hx|apply IHe; [exact Hfx|exact (existsb_false _ _ K2 x Hx)]].
-  - cbn [ser_dyn dyn_fits dyn_known] in *. apply orb_false_elim in Hk as [K1 K2].
-    destruct (N.of_nat (List.length l) =? d) eqn:Ed; cbn [andb] in *; [|unfold w_vector; rewrite Ed; apply fails_fail].
-    rewrite K1 in Hf. cbn [negb andb] in Hf. apply forallb_false_ex in Hf as (x & Hx & Hfx).
-    apply fails_vector with x; [intros; apply frame_ser_dyn|exact Hx|apply IHe; [exact Hfx|exact (existsb_false _ _ K2 x Hx)]].
-  - cbn [ser_dyn dyn_fits dyn_known] in *. apply orb_false_elim in Hk as [K1 K2].
-    destruct (N.of_nat (List.length l) =? d) eqn:Ed; cbn [andb] in *; [|unfold w_vector; rewrite Ed; apply fails_fail].
-    rewrite K1 in Hf. cbn [negb andb] in Hf. apply forallb_false_ex in Hf as (x & Hx & Hfx).
-    apply fails_vector with x; [intros; apply frame_ser_dyn|exact Hx|apply IHe; [exact Hfx|exact (existsb_false _ _ K2 x Hx)]].
+  - cbn [ser_dyn dyn_fits_gen andb negb] in *. destruct (N.of_nat (List.length l) =? d) eqn:Ed; cbn [andb] in *;
+      [|unfold w_vector; rewrite Ed; apply fails_fail].
+    apply forallb_false_ex in Hf as (x & Hx & Hfx).
+    apply fails_vector with x; [intros; apply frame_ser_dyn|exact Hx|apply IHe, Hfx].
+  - cbn [ser_dyn dyn_fits_gen andb negb] in *. destruct (N.of_nat (List.length l) =? d) eqn:Ed; cbn [andb] in *;
+      [|unfold w_vector; rewrite Ed; apply fails_fail].
+    apply forallb_false_ex in Hf as (x & Hx & Hfx).
+    apply fails_vector with x; [intros; apply frame_ser_dyn|exact Hx|apply IHe, Hfx].
+  - cbn [ser_dyn dyn_fits_gen andb negb] in *. destruct (N.of_nat (List.length l) =? d) eqn:Ed; cbn [andb] in *;
+      [|unfold w_vector; rewrite Ed; apply fails_fail].
+    apply forallb_false_ex in Hf as (x & Hx & Hfx).
+    apply fails_vector with x; [intros; apply frame_ser_dyn|exact Hx|apply IHe, Hfx].
 Qed.
+
+(* the earlier form: not a value of the type and not of the known class *)
+Lemma dyn_lax_of t v : dyn_fits t v = false -> dyn_known t v = false -> dyn_lax t v = false.
+Proof. unfold dyn_known. intros -> H. cbn [negb] in H. now rewrite andb_true_r in H. Qed.
+Theorem dyn_reject t ws v : dyn_fits t v = false -> dyn_known t v = false -> fails (ser_dyn ws t v).
+Proof. intros H K. apply dyn_reject_lax, dyn_lax_of; assumption. Qed.
+
 (* ====================================================================================== *)
 (* 8. The buffer-level dynamic serialiser is Model/Cql.v's [ser_value]                      *)
 (* ====================================================================================== *)
@@ -1939,9 +1934,13 @@ Qed.
 
 Lemma real_ser_leaf b ws t x : base_payload b x = true -> real_errs (ser_leaf b ws t x).
 Proof.
-  intros Hp. destruct (native_in t (ser_base_types b)) eqn:E.
-  - apply (in_ser_leaf not_ill ni_ov); assumption.
-  - unfold ser_leaf. rewrite E. apply real_fail.
+  intros Hp. destruct (native_in t (ser_base_types b)) eqn:E; [|unfold ser_leaf; rewrite E; apply real_fail].
+  destruct (value_overflow b x) eqn:Eo; [|apply (in_ser_leaf not_ill ni_ov); assumption].
+  assert (Gv : real_errs (w_fail KE_ValueOverflow)) by (intros e' H; cbn in H; inversion H; discriminate).
+  unfold ser_leaf. rewrite E, Hp, Eo. cbn [negb].
+  destruct (leaf_bytes x) eqn:Eb;
+    [|exfalso; apply (leaf_bytes_payload x); [|exact Eb]; unfold base_payload in Hp; destruct (payload_kind x); congruence].
+  destruct (uses_builder b); [apply (in_builder not_ill ni_ov); [apply frame_fail|exact Gv]|exact Gv].
 Qed.
 
 Lemma real_dyn_tuple_go (f : ctype -> cval -> writer) ts :
@@ -2046,27 +2045,14 @@ Fixpoint vfits_go (f : carrier -> ctype -> kval -> bool) (ks : list carrier) (ts
   | k1 :: ks', t1 :: ts', v1 :: vs' => f k1 t1 v1 && vfits_go f ks' ts' vs'
   | _, _, _ => true
   end.
-Fixpoint vknown_go (f : carrier -> ctype -> kval -> bool) (ks : list carrier) (ts : list ctype) (vs : list kval) : bool :=
-  match ks, ts, vs with
-  | k1 :: ks', t1 :: ts', v1 :: vs' => f k1 t1 v1 || vknown_go f ks' ts' vs'
-  | _, _, _ => false
-  end.
-
-Lemma val_fits_tuple ks ts vs :
-  val_fits (KTuple ks) (TTuple ts) (VTup vs) =
-  (List.length ks <=? List.length ts)%nat && (List.length ks =? List.length vs)%nat && vfits_go val_fits ks ts vs.
+Lemma val_fits_tuple s ks ts vs :
+  val_fits_gen s (KTuple ks) (TTuple ts) (VTup vs) =
+  (List.length ks <=? List.length ts)%nat && (List.length ks =? List.length vs)%nat && vfits_go (val_fits_gen s) ks ts vs.
 Proof.
-  cbn [val_fits]. f_equal. revert ts vs. induction ks as [|k1 ks' IH]; intros ts vs; [reflexivity|].
+  cbn [val_fits_gen]. f_equal. revert ts vs. induction ks as [|k1 ks' IH]; intros ts vs; [reflexivity|].
   destruct ts as [|t1 ts']; [reflexivity|]. destruct vs as [|v1 vs']; [reflexivity|].
   cbn [vfits_go]. now rewrite <- IH.
 Qed.
-Lemma val_known_tuple ks ts vs : val_known (KTuple ks) (TTuple ts) (VTup vs) = vknown_go val_known ks ts vs.
-Proof.
-  cbn [val_known]. revert ts vs. induction ks as [|k1 ks' IH]; intros ts vs; [reflexivity|].
-  destruct ts as [|t1 ts']; [reflexivity|]. destruct vs as [|v1 vs']; [reflexivity|].
-  cbn [vknown_go]. now rewrite <- IH.
-Qed.
-
 Lemma size_ov : is_size_err (KE SE_SizeOverflow) = true. Proof. reflexivity. Qed.
 Lemma size_tm : is_size_err (KE SE_TooManyElements) = true. Proof. reflexivity. Qed.
 Notation sizeQ := (fun e : kerr => is_size_err e = true).
@@ -2074,13 +2060,14 @@ Notation sizeQ := (fun e : kerr => is_size_err e = true).
 (* the bytes-level property, accepted side: a value that is a value of the column type is never
    refused by a type check - for EVERY carrier (CqlValue at any position included) and every
    value, populated or not *)
-Theorem val_accept k : forall ws t v, val_fits k t v = true -> size_errs (ser_buf k ws t v).
+Theorem val_accept_gen s k : forall ws t v, val_fits_gen s k t v = true -> size_errs (ser_buf k ws t v).
 Proof.
   unfold size_errs.
-  induction k using carrier_ind'; intros ws t v Hf; cbn [val_fits] in Hf; try discriminate.
+  induction k using carrier_ind'; intros ws t v Hf; cbn [val_fits_gen] in Hf; try discriminate.
   - destruct b; destruct v; try discriminate; cbn [ser_buf]; try apply in_append;
-      apply andb_prop in Hf as [H1 H2]; apply (in_ser_leaf sizeQ size_ov); assumption.
-  - destruct v; try discriminate. cbn [ser_buf]. now apply dyn_accept.
+      apply andb_prop in Hf as [H1 H3]; apply andb_prop in H1 as [H1 H2]; apply negb_true_iff in H3;
+      apply (in_ser_leaf sizeQ size_ov); assumption.
+  - destruct v; try discriminate. cbn [ser_buf]. now apply (dyn_accept_gen s).
   - destruct v; try discriminate; cbn [ser_buf]; try apply in_append; try (now apply IHk).
   - destruct v; try discriminate; cbn [ser_buf]; try apply in_append; try (now apply IHk).
   - apply andb_prop in Hf as [He Hf]. cbn [ser_buf]. rewrite He. cbn [negb].
@@ -2111,7 +2098,7 @@ Proof.
   - destruct v; try discriminate. cbn [ser_buf]. destruct t; try discriminate. rewrite forallb_forall in Hf.
     apply (in_mapping sizeQ size_ov size_tm). intros kv Hkv. specialize (Hf kv Hkv). apply andb_prop in Hf as [H1 H2].
     split; (split; [apply frame_ser_buf|]); [apply IHk1|apply IHk2]; auto.
-  - destruct v; try discriminate. destruct t; try discriminate. change (val_fits (KTuple ks) (TTuple ts) (VTup l) = true) in Hf.
+  - destruct v; try discriminate. destruct t; try discriminate. change (val_fits_gen s (KTuple ks) (TTuple ts) (VTup l) = true) in Hf.
     rewrite val_fits_tuple in Hf. apply andb_prop in Hf as [Hf Hg]. apply andb_prop in Hf as [Hle Hl].
     apply Nat.leb_le in Hle. apply Nat.eqb_eq in Hl. rewrite ser_buf_tuple.
     assert ((List.length ts <? List.length ks)%nat = false) as -> by (apply Nat.ltb_ge; exact Hle).
@@ -2124,93 +2111,94 @@ Proof.
       constructor; [cbn [fst snd]; now apply Hk1|]. apply IH; auto; lia.
 Qed.
 
-(* the bytes-level property, refused side: a value that is NOT a value of the column type - the
-   misfit at any depth, in any carrier - is refused, outside the known class *)
-Theorem val_reject k : forall ws t v, has_carrier k v = true -> val_fits k t v = false -> val_known k t v = false ->
-  fails (ser_buf k ws t v).
+
+Lemma fails_overflow b ws t x : native_in t (ser_base_types b) = true -> base_payload b x = true ->
+  value_overflow b x = true -> fails (ser_leaf b ws t x).
 Proof.
-  induction k using carrier_ind'; intros ws t v Hv Hf Hk; cbn [has_carrier] in Hv; try discriminate.
-  - destruct b; destruct v; try discriminate; cbn [ser_buf val_fits] in *; try discriminate;
-      rewrite Hv, andb_true_r in Hf; apply fails_ser_leaf; exact Hf.
-  - destruct v; try discriminate. cbn [ser_buf val_fits val_known] in *. now apply dyn_reject.
-  - destruct v; try discriminate; cbn [ser_buf val_fits val_known] in *; try discriminate; now apply IHk.
-  - destruct v; try discriminate; cbn [ser_buf val_fits val_known] in *; try discriminate; now apply IHk.
-  - cbn [ser_buf val_fits val_known] in *. destruct (supports_empty t); cbn [negb andb] in *; [|apply fails_fail].
+  intros Ht Hp Ho. unfold ser_leaf. rewrite Ht, Hp, Ho. cbn [negb].
+  destruct (leaf_bytes x) eqn:Eb;
+    [|exfalso; apply (leaf_bytes_payload x); [|exact Eb]; unfold base_payload in Hp; destruct (payload_kind x); congruence].
+  destruct (uses_builder b); [apply fails_builder; [apply frame_fail|]|]; apply fails_fail.
+Qed.
+
+(* the bytes-level property, refused side: a value that is not a value of the column type even
+   WITHOUT the vector element rule - the misfit at any depth, in any carrier - is refused.  No
+   class premise. *)
+Theorem val_reject_lax k : forall ws t v, has_carrier k v = true -> val_lax k t v = false -> fails (ser_buf k ws t v).
+Proof.
+  unfold val_lax.
+  induction k using carrier_ind'; intros ws t v Hv Hf; cbn [has_carrier] in Hv; try discriminate.
+  - destruct b; destruct v; try discriminate; cbn [ser_buf val_fits_gen] in *; try discriminate;
+      rewrite Hv, andb_true_r in Hf;
+      (destruct (native_in t (ser_base_types _)) eqn:En; [|apply fails_ser_leaf; exact En]);
+      cbn [andb] in Hf; try discriminate Hf; apply negb_false_iff in Hf; apply fails_overflow; assumption.
+  - destruct v; try discriminate. cbn [ser_buf val_fits_gen] in *. now apply dyn_reject_lax.
+  - destruct v; try discriminate; cbn [ser_buf val_fits_gen] in *; try discriminate; now apply IHk.
+  - destruct v; try discriminate; cbn [ser_buf val_fits_gen] in *; try discriminate; now apply IHk.
+  - cbn [ser_buf val_fits_gen] in *. destruct (supports_empty t); cbn [negb andb] in *; [|apply fails_fail].
     destruct v; try discriminate; now apply IHk.
-  - destruct v; try discriminate; cbn [ser_buf val_fits val_known] in *; now apply IHk.
-  - destruct v; try discriminate; cbn [ser_buf val_fits val_known] in *; now apply IHk.
-  - destruct v; try discriminate; cbn [ser_buf val_fits val_known] in *; now apply IHk.
-  - destruct v; try discriminate; cbn [ser_buf val_fits val_known] in *; now apply IHk.
-  - destruct v; try discriminate; cbn [ser_buf val_fits val_known] in *; now apply IHk.
-  - destruct v; try discriminate; cbn [ser_buf val_fits val_known] in *; now apply IHk.
-  - destruct v; try discriminate. rewrite forallb_forall in Hv. cbn [ser_buf val_fits val_known] in *.
+  - destruct v; try discriminate; cbn [ser_buf val_fits_gen] in *; now apply IHk.
+  - destruct v; try discriminate; cbn [ser_buf val_fits_gen] in *; now apply IHk.
+  - destruct v; try discriminate; cbn [ser_buf val_fits_gen] in *; now apply IHk.
+  - destruct v; try discriminate; cbn [ser_buf val_fits_gen] in *; now apply IHk.
+  - destruct v; try discriminate; cbn [ser_buf val_fits_gen] in *; now apply IHk.
+  - destruct v; try discriminate; cbn [ser_buf val_fits_gen] in *; now apply IHk.
+  - destruct v; try discriminate. rewrite forallb_forall in Hv. cbn [ser_buf val_fits_gen andb negb] in *.
     destruct t; try apply fails_fail.
-    + apply forallb_false_ex in Hf as (x & Hx & Hfx). apply fails_sequence with x; [intros; apply frame_ser_buf|exact Hx|].
-      apply IHk; auto. exact (existsb_false _ _ Hk x Hx).
-    + apply forallb_false_ex in Hf as (x & Hx & Hfx). apply fails_sequence with x; [intros; apply frame_ser_buf|exact Hx|].
-      apply IHk; auto. exact (existsb_false _ _ Hk x Hx).
+    + apply forallb_false_ex in Hf as (x & Hx & Hfx). apply fails_sequence with x; [intros; apply frame_ser_buf|exact Hx|]. apply IHk; auto.
+    + apply forallb_false_ex in Hf as (x & Hx & Hfx). apply fails_sequence with x; [intros; apply frame_ser_buf|exact Hx|]. apply IHk; auto.
     + destruct (N.of_nat (List.length l) =? dim) eqn:Ed; cbn [andb] in Hf; [|unfold w_vector; rewrite Ed; apply fails_fail].
-      apply forallb_false_ex in Hf as (x & Hx & Hfx). pose proof (existsb_false _ _ Hk x Hx) as Hkx. cbn beta in Hkx.
-      apply orb_false_elim in Hkx as [K1 K2]. rewrite K1 in Hfx. cbn [negb andb] in Hfx.
+      apply forallb_false_ex in Hf as (x & Hx & Hfx). cbn [negb andb] in Hfx.
       apply fails_vector with x; [intros; apply frame_ser_buf|exact Hx|]. apply IHk; auto.
-  - destruct v; try discriminate. rewrite forallb_forall in Hv. cbn [ser_buf val_fits val_known] in *.
+  - destruct v; try discriminate. rewrite forallb_forall in Hv. cbn [ser_buf val_fits_gen andb negb] in *.
     destruct t; try apply fails_fail.
-    + apply forallb_false_ex in Hf as (x & Hx & Hfx). apply fails_sequence with x; [intros; apply frame_ser_buf|exact Hx|].
-      apply IHk; auto. exact (existsb_false _ _ Hk x Hx).
-    + apply forallb_false_ex in Hf as (x & Hx & Hfx). apply fails_sequence with x; [intros; apply frame_ser_buf|exact Hx|].
-      apply IHk; auto. exact (existsb_false _ _ Hk x Hx).
+    + apply forallb_false_ex in Hf as (x & Hx & Hfx). apply fails_sequence with x; [intros; apply frame_ser_buf|exact Hx|]. apply IHk; auto.
+    + apply forallb_false_ex in Hf as (x & Hx & Hfx). apply fails_sequence with x; [intros; apply frame_ser_buf|exact Hx|]. apply IHk; auto.
     + destruct (N.of_nat (List.length l) =? dim) eqn:Ed; cbn [andb] in Hf; [|unfold w_vector; rewrite Ed; apply fails_fail].
-      apply forallb_false_ex in Hf as (x & Hx & Hfx). pose proof (existsb_false _ _ Hk x Hx) as Hkx. cbn beta in Hkx.
-      apply orb_false_elim in Hkx as [K1 K2]. rewrite K1 in Hfx. cbn [negb andb] in Hfx.
+      apply forallb_false_ex in Hf as (x & Hx & Hfx). cbn [negb andb] in Hfx.
       apply fails_vector with x; [intros; apply frame_ser_buf|exact Hx|]. apply IHk; auto.
-  - destruct v; try discriminate. rewrite forallb_forall in Hv. cbn [ser_buf val_fits val_known] in *.
+  - destruct v; try discriminate. rewrite forallb_forall in Hv. cbn [ser_buf val_fits_gen] in *.
     destruct t; try apply fails_fail;
       apply forallb_false_ex in Hf as (x & Hx & Hfx); (apply fails_sequence with x; [intros; apply frame_ser_buf|exact Hx|]);
-      apply IHk; auto; exact (existsb_false _ _ Hk x Hx).
-  - destruct v; try discriminate. rewrite forallb_forall in Hv. cbn [ser_buf val_fits val_known] in *.
+      apply IHk; auto.
+  - destruct v; try discriminate. rewrite forallb_forall in Hv. cbn [ser_buf val_fits_gen] in *.
     destruct t; try apply fails_fail;
       apply forallb_false_ex in Hf as (x & Hx & Hfx); (apply fails_sequence with x; [intros; apply frame_ser_buf|exact Hx|]);
-      apply IHk; auto; exact (existsb_false _ _ Hk x Hx).
-  - destruct v; try discriminate. rewrite forallb_forall in Hv. cbn [ser_buf val_fits val_known] in *.
+      apply IHk; auto.
+  - destruct v; try discriminate. rewrite forallb_forall in Hv. cbn [ser_buf val_fits_gen] in *.
     destruct t; try apply fails_fail. apply forallb_false_ex in Hf as (kv & Hkv & Hfx).
-    pose proof (existsb_false _ _ Hk kv Hkv) as Hkk. cbn beta in Hkk. apply orb_false_elim in Hkk as [K1 K2].
     specialize (Hv kv Hkv). apply andb_prop in Hv as [Hv1 Hv2].
     apply fails_mapping with kv; [intros; split; apply frame_ser_buf|exact Hkv|].
     apply andb_false_elim in Hfx as [H|H]; [left; apply IHk1|right; apply IHk2]; auto.
-  - destruct v; try discriminate. rewrite forallb_forall in Hv. cbn [ser_buf val_fits val_known] in *.
+  - destruct v; try discriminate. rewrite forallb_forall in Hv. cbn [ser_buf val_fits_gen] in *.
     destruct t; try apply fails_fail. apply forallb_false_ex in Hf as (kv & Hkv & Hfx).
-    pose proof (existsb_false _ _ Hk kv Hkv) as Hkk. cbn beta in Hkk. apply orb_false_elim in Hkk as [K1 K2].
     specialize (Hv kv Hkv). apply andb_prop in Hv as [Hv1 Hv2].
     apply fails_mapping with kv; [intros; split; apply frame_ser_buf|exact Hkv|].
     apply andb_false_elim in Hfx as [H|H]; [left; apply IHk1|right; apply IHk2]; auto.
   - destruct v; try discriminate. rewrite ser_buf_tuple. destruct t; try apply fails_fail.
-    rewrite val_fits_tuple in Hf. rewrite val_known_tuple in Hk.
+    rewrite val_fits_tuple in Hf.
     apply andb_prop in Hv as [Hl Hv]. rewrite Hl, andb_true_r in Hf. apply Nat.eqb_eq in Hl.
     destruct (List.length ts <? List.length ks)%nat eqn:El; [apply fails_fail|]. apply Nat.ltb_ge in El.
     assert ((List.length ks <=? List.length ts)%nat = true) as Hle by (apply Nat.leb_le; exact El).
     rewrite Hle in Hf. cbn [andb] in Hf.
     apply fails_builder; [apply frame_tuple_go, Forall_forall; intros; apply frame_ser_buf|].
     apply fails_tuple_go; [intros; apply frame_ser_buf|exact Hl|exact El|].
-    clear Hle. revert ts l Hl Hv Hf Hk El. induction H as [|k1 ks' Hk1 _ IH]; intros ts vs Hl Hv Hf Hk El.
+    clear Hle. revert ts l Hl Hv Hf El. induction H as [|k1 ks' Hk1 _ IH]; intros ts vs Hl Hv Hf El.
     + discriminate.
     + destruct vs as [|v1 vs']; [discriminate|]. destruct ts as [|t1 ts']; [simpl in El; lia|].
-      cbn [all2 vfits_go vknown_go List.length firstn combine] in *.
-      apply andb_prop in Hv as [Hv1 Hv2]. apply orb_false_elim in Hk as [K1 K2].
+      cbn [all2 vfits_go List.length firstn combine] in *.
+      apply andb_prop in Hv as [Hv1 Hv2].
       apply andb_false_elim in Hf as [Hf|Hf].
       * apply Exists_cons_hd. cbn [fst snd]. now apply Hk1.
       * apply Exists_cons_tl. apply IH; auto; lia.
 Qed.
 
-(* ... and the error is a real error kind: a type-check error, or one of the three checks that can
-   come before it (vector length, element count, cell size) *)
-Theorem val_reject_class k ws t v : has_carrier k v = true -> val_fits k t v = false -> val_known k t v = false ->
-  exists se, snd (ser_buf k ws t v []) = Some (KE se) /\
-             (is_typeck (KE se) = true \/ se = SE_VectorLen \/ se = SE_TooManyElements \/ se = SE_SizeOverflow).
-Proof.
-  intros Hv Hf Hk. destruct (val_reject k ws t v Hv Hf Hk) as [e He].
-  pose proof (real_ser_buf k ws t v Hv e He) as Hn. destruct e as [se|]; [|congruence].
-  exists se. split; [exact He|]. destruct se; cbn; auto.
-Qed.
+Lemma val_lax_of k t v : val_fits k t v = false -> val_known k t v = false -> val_lax k t v = false.
+Proof. unfold val_known. intros -> H. cbn [negb] in H. now rewrite andb_true_r in H. Qed.
+Definition val_accept := val_accept_gen true.
+Theorem val_reject k ws t v : has_carrier k v = true -> val_fits k t v = false -> val_known k t v = false ->
+  fails (ser_buf k ws t v).
+Proof. intros Hv H K. apply val_reject_lax; [exact Hv|]. now apply val_lax_of. Qed.
 
 (* the type-level matrix and the value level: a rejected pair does not fit on any populated value *)
 Lemma all2_false_any {A B} (f : A -> B -> bool) l m : (List.length l <= List.length m)%nat -> all2 f l m = false ->
@@ -2244,21 +2232,320 @@ Proof.
   intros H. inversion H; subst. split; [reflexivity|]. now apply N.ltb_ge in E.
 Qed.
 
-(* reject_complete / dyn_reject with the error named *)
-Theorem reject_complete_class k ws t v : has_carrier k v = true -> populated v = true -> ser_accepts k t = false ->
-  exists se, snd (ser_buf k ws t v []) = Some (KE se) /\
-             (is_typeck (KE se) = true \/ se = SE_VectorLen \/ se = SE_TooManyElements \/ se = SE_SizeOverflow).
+(* ====================================================================================== *)
+(* 10. Which error: the causes of the two errors that can come before a type-check error     *)
+(* ====================================================================================== *)
+
+(* VectorLen only with a vector position of the wrong length (b1), TooManyElements only with a
+   collection of more than i32::MAX elements (b2) *)
+Definition cause (b1 b2 : bool) (e : kerr) : Prop :=
+  (e = KE SE_VectorLen -> b1 = true) /\ (e = KE SE_TooManyElements -> b2 = true).
+
+Lemma cause_ov b1 b2 : cause b1 b2 (KE SE_SizeOverflow). Proof. split; discriminate. Qed.
+Lemma cause_other b1 b2 e : e <> KE SE_VectorLen -> e <> KE SE_TooManyElements -> cause b1 b2 e.
+Proof. intros H1 H2. split; intros ->; congruence. Qed.
+Lemma cause_weaken b1 b2 c1 c2 e : (b1 = true -> c1 = true) -> (b2 = true -> c2 = true) -> cause b1 b2 e -> cause c1 c2 e.
+Proof. intros H1 H2 [A B]. split; auto. Qed.
+
+Lemma errs_weaken (Q1 Q2 : kerr -> Prop) w : (forall e, Q1 e -> Q2 e) -> errs_in Q1 w -> errs_in Q2 w.
+Proof. intros H H1 e He. apply H, H1, He. Qed.
+
+Lemma c_fail b1 b2 e : e <> KE SE_VectorLen -> e <> KE SE_TooManyElements -> errs_in (cause b1 b2) (w_fail e).
+Proof. intros H1 H2 e' H. cbn in H. inversion H; subst. now apply cause_other. Qed.
+
+(* builders, loops and set_value with a TooManyElements-free Q: the generic lemmas need Q TooMany
+   only in in_sequence / in_mapping, where the cause is at hand *)
+Lemma c_builder b1 b2 ws body : frame body -> errs_in (cause b1 b2) body -> errs_in (cause b1 b2) (w_builder ws body).
+Proof. apply in_builder, cause_ov. Qed.
+Lemma c_set_value b1 b2 ws c : errs_in (cause b1 b2) (w_set_value ws c).
+Proof. apply in_set_value, cause_ov. Qed.
+
+Lemma c_ser_leaf b1 b2 b ws t x : errs_in (cause b1 b2) (ser_leaf b ws t x).
 Proof.
-  intros Hv Hp Ha. destruct (reject_complete k ws t v Hv Hp Ha) as [e He].
-  pose proof (real_ser_buf k ws t v Hv e He) as Hn. destruct e as [se|]; [|congruence].
-  exists se. split; [exact He|]. destruct se; cbn; auto.
+  unfold ser_leaf. destruct (negb _); [apply c_fail; discriminate|]. destruct (negb _); [apply c_fail; discriminate|].
+  destruct (leaf_bytes x); [|apply c_fail; discriminate].
+  destruct (uses_builder b); [apply c_builder|]; destruct (value_overflow b x);
+    try apply frame_fail; try apply frame_append; try (apply c_fail; discriminate); try apply in_append; apply c_set_value.
 Qed.
 
-Theorem dyn_reject_class t ws v : dyn_fits t v = false -> dyn_known t v = false ->
-  exists se, snd (ser_dyn ws t v []) = Some (KE se) /\
-             (is_typeck (KE se) = true \/ se = SE_VectorLen \/ se = SE_TooManyElements \/ se = SE_SizeOverflow).
+Lemma existsb_true {A} (f : A -> bool) l x : In x l -> f x = true -> existsb f l = true.
+Proof. intros Hx Hf. apply existsb_exists. eauto. Qed.
+
+Lemma c_sequence {A} b1 b2 ws (f : A -> writer) l :
+  (i32_max <? N.of_nat (List.length l) = true -> b2 = true) ->
+  (forall x, In x l -> frame (f x) /\ errs_in (cause b1 b2) (f x)) -> errs_in (cause b1 b2) (w_sequence ws f l).
 Proof.
-  intros Hf Hk. destruct (dyn_reject t ws v Hf Hk) as [e He].
-  pose proof (real_ser_dyn t ws v e He) as Hn. destruct e as [se|]; [|congruence].
-  exists se. split; [exact He|]. destruct se; cbn; auto.
+  intros Hb H. unfold w_sequence. destruct (i32_max <? N.of_nat (List.length l)) eqn:E.
+  - apply c_builder; [apply (frame_fail (KE SE_TooManyElements))|].
+    intros e He. cbn in He. inversion He; subst. split; [discriminate|intros _; now apply Hb].
+  - apply c_builder.
+    + apply (frame_then (w_append _) (w_loop f l)); [apply frame_append|apply frame_loop; intros; now apply H].
+    + apply (in_then _ (w_append _) (w_loop f l)); [apply frame_loop; intros; now apply H|apply in_append|apply in_loop, H].
+Qed.
+
+Lemma c_mapping {A B} b1 b2 ws (fk : A -> writer) (fv : B -> writer) l :
+  (i32_max <? N.of_nat (List.length l) = true -> b2 = true) ->
+  (forall kv, In kv l -> (frame (fk (fst kv)) /\ errs_in (cause b1 b2) (fk (fst kv))) /\
+                         (frame (fv (snd kv)) /\ errs_in (cause b1 b2) (fv (snd kv)))) ->
+  errs_in (cause b1 b2) (w_mapping ws fk fv l).
+Proof.
+  intros Hb H. unfold w_mapping.
+  assert (FL : frame (w_loop (fun kv => w_then (fk (fst kv)) (fv (snd kv))) l)).
+  { apply frame_loop. intros kv Hkv. destruct (H kv Hkv) as [[? ?] [? ?]]. now apply frame_then. }
+  destruct (i32_max <? N.of_nat (List.length l)) eqn:E.
+  - apply c_builder; [apply (frame_fail (KE SE_TooManyElements))|].
+    intros e He. cbn in He. inversion He; subst. split; [discriminate|intros _; now apply Hb].
+  - apply c_builder.
+    + apply (frame_then (w_append _)); [apply frame_append|exact FL].
+    + apply (in_then _ (w_append _)); [exact FL|apply in_append|].
+      apply in_loop. intros kv Hkv. destruct (H kv Hkv) as [[? ?] [? ?]]. split; [now apply frame_then|now apply in_then].
+Qed.
+
+Lemma c_vector {A} b1 b2 ws fixed dim (f : A -> writer) l :
+  (negb (N.of_nat (List.length l) =? dim) = true -> b1 = true) ->
+  (forall x, In x l -> frame (f x) /\ errs_in (cause b1 b2) (f x)) -> errs_in (cause b1 b2) (w_vector ws fixed dim f l).
+Proof.
+  intros Hb H. destruct (N.of_nat (List.length l) =? dim) eqn:E.
+  - apply (in_vector _ (cause_ov b1 b2)); assumption.
+  - unfold w_vector. rewrite E. cbn [negb]. intros e He. cbn in He. inversion He; subst.
+    split; [intros _; now apply Hb|discriminate].
+Qed.
+
+(* ---- the dynamic value ---- *)
+
+Fixpoint lenmis_tuple_go (f : ctype -> cval -> bool) (ts : list ctype) (l : list (option cval)) : bool :=
+  match ts, l with
+  | et :: ts', ox :: l' => match ox with None => false | Some x => f et x end || lenmis_tuple_go f ts' l'
+  | _, _ => false
+  end.
+Lemma dyn_len_mis_tuple ts l : dyn_len_mis (TTuple ts) (CTuple l) = lenmis_tuple_go dyn_len_mis ts l.
+Proof.
+  cbn [dyn_len_mis]. revert l. induction ts as [|et ts' IH]; intros l; [reflexivity|].
+  destruct l as [|ox l']; [reflexivity|]. cbn [lenmis_tuple_go]. now rewrite <- IH.
+Qed.
+
+Lemma c_dyn_tuple_go (f : ctype -> cval -> writer) (m : ctype -> cval -> bool) ts :
+  Forall (fun et => forall x, frame (f et x) /\ errs_in (cause (m et x) (cval_big x)) (f et x)) ts ->
+  forall l, errs_in (cause (lenmis_tuple_go m ts l) (cval_big (CTuple l))) (dyn_tuple_go f ts l).
+Proof.
+  induction 1 as [|et ts' Het Hts IH]; intros l; [apply in_ok|].
+  destruct l as [|ox l']; [apply in_ok|]. cbn [dyn_tuple_go lenmis_tuple_go cval_big existsb].
+  apply in_then.
+  - apply frame_dyn_tuple_go. eapply Forall_impl; [|exact Hts]. intros a Ha x. apply Ha.
+  - destruct ox as [x|]; [|apply in_append].
+    eapply errs_weaken; [|apply Het]. intros e. apply cause_weaken; intros ->; reflexivity.
+  - eapply errs_weaken; [|apply IH]. intros e. apply cause_weaken; intros H0; cbn [cval_big] in *; rewrite H0; apply orb_true_r.
+Qed.
+
+Lemma udt_field_value_named fname (st : list (name * option cval)) x : udt_field_value fname st = Some x ->
+  exists m, In (m, Some x) st /\ bytes_eqb fname m = true.
+Proof.
+  unfold udt_field_value. destruct (lookup_last fname st) as [[y|]|] eqn:E; try discriminate. intros H. inversion H; subst.
+  induction st as [|[m z] r IH]; [discriminate|]. cbn [lookup_last] in E.
+  destruct (lookup_last fname r) as [w|] eqn:E2.
+  - destruct (IH E) as (m' & Hin & Hm). exists m'. split; [now right|exact Hm].
+  - destruct (bytes_eqb fname m) eqn:Eb; [|discriminate]. exists m. split; [left; congruence|exact Eb].
+Qed.
+
+Lemma remove_name_sub fname (st : list (name * option cval)) y : In y (remove_name fname st) -> In y st.
+Proof. unfold remove_name. intros H. apply filter_In in H. tauto. Qed.
+
+Lemma c_dyn_udt_go (f : ctype -> cval -> writer) (m : ctype -> cval -> bool) (fields : list (name * option cval)) b1 b2 fts :
+  Forall (fun ft => forall x, frame (f (snd ft) x) /\ errs_in (cause (m (snd ft) x) (cval_big x)) (f (snd ft) x)) fts ->
+  (forall ft mm x, In ft fts -> In (mm, Some x) fields -> bytes_eqb (fst ft) mm = true -> m (snd ft) x = true -> b1 = true) ->
+  (forall mm x, In (mm, Some x) fields -> cval_big x = true -> b2 = true) ->
+  forall st : list (name * option cval), (forall y, In y st -> In y fields) -> errs_in (cause b1 b2) (dyn_udt_go f fts st).
+Proof.
+  intros HF. induction HF as [|[fname ft] r Hft Hr IH]; intros H1 H2 st Hst; cbn [dyn_udt_go].
+  - destruct (is_nil st); [apply in_ok|apply c_fail; discriminate].
+  - apply in_then.
+    + apply frame_dyn_udt_go. eapply Forall_impl; [|exact Hr]. intros a Ha x. apply Ha.
+    + destruct (udt_field_value fname st) as [x|] eqn:Ex; [|apply in_append].
+      destruct (udt_field_value_named _ _ _ Ex) as (mm & Hin & Hm).
+      eapply errs_weaken; [|apply (Hft x)]. intros e. apply cause_weaken.
+      * intros Hmx. apply (H1 (fname, ft) mm x); [now left|apply Hst, Hin|exact Hm|exact Hmx].
+      * intros Hb. apply (H2 mm x); [apply Hst, Hin|exact Hb].
+    + apply IH; [intros ft0 mm x Hin; apply H1; now right|exact H2|].
+      intros y Hy. apply Hst. now apply (remove_name_sub fname).
+Qed.
+
+Lemma ser_dyn_cause t : forall ws v, errs_in (cause (dyn_len_mis t v) (cval_big v)) (ser_dyn ws t v).
+Proof.
+  induction t as [n|e IHe|e IHe|k e IHk IHe|ts IHts|ks' nm' fts IHfs|e d IHe] using ctype_ind'; intros ws v.
+  all: destruct (is_leaf v) eqn:El; [rewrite ser_dyn_leaf by exact El; apply c_ser_leaf|].
+  all: destruct v; try discriminate El;
+    try (rewrite ser_dyn_tuple, dyn_len_mis_tuple; destruct (_ <? _)%nat; [apply c_fail; discriminate|];
+         apply c_builder; [apply frame_dyn_tuple_go, Forall_forall; intros; apply frame_ser_dyn|];
+         apply c_dyn_tuple_go; eapply Forall_impl; [|exact IHts]; intros a Ha x; split; [apply frame_ser_dyn|apply Ha]);
+    try (rewrite ser_dyn_udt; destruct (negb _); [apply c_fail; discriminate|];
+         apply c_builder; [apply frame_dyn_udt_go, Forall_forall; intros; apply frame_ser_dyn|];
+         apply c_dyn_udt_go with (m := dyn_len_mis) (fields := fields);
+         [eapply Forall_impl; [|exact IHfs]; intros a Ha x; split; [apply frame_ser_dyn|apply Ha]
+         |intros ft mm x Hft Hin Hm Hx; cbn [dyn_len_mis]; apply (existsb_true _ _ ft Hft); apply (existsb_true _ _ (mm, Some x) Hin);
+          cbn [fst snd]; now rewrite Hm, Hx
+         |intros mm x Hin Hb; cbn [cval_big]; apply (existsb_true _ _ (mm, Some x) Hin); exact Hb
+         |auto]);
+    cbn [ser_dyn dyn_len_mis cval_big]; try (apply c_fail; discriminate);
+    try (destruct (supports_empty _); [apply c_set_value|apply c_fail; discriminate]).
+  all: try (apply c_sequence; [intros ->; reflexivity|]; intros x Hx; split; [apply frame_ser_dyn|];
+            eapply errs_weaken; [|apply IHe]; intros e0; apply cause_weaken; intros H0;
+            [apply (existsb_true _ _ x Hx H0)|rewrite (existsb_true _ _ x Hx H0); apply orb_true_r]).
+  - apply c_mapping; [intros ->; reflexivity|]. intros kv Hkv.
+    split; (split; [apply frame_ser_dyn|]); (eapply errs_weaken; [|first [apply IHk|apply IHe]]); intros e0; apply cause_weaken; intros H0.
+    + apply (existsb_true _ _ kv Hkv). now rewrite H0.
+    + rewrite (existsb_true (fun kv => cval_big (fst kv) || cval_big (snd kv)) _ kv Hkv); [apply orb_true_r|now rewrite H0].
+    + apply (existsb_true _ _ kv Hkv). rewrite H0. apply orb_true_r.
+    + rewrite (existsb_true (fun kv => cval_big (fst kv) || cval_big (snd kv)) _ kv Hkv); [apply orb_true_r|rewrite H0; apply orb_true_r].
+  - (* vector *) apply c_vector; [intros ->; reflexivity|]. intros x Hx. split; [apply frame_ser_dyn|].
+    eapply errs_weaken; [|apply IHe]. intros e0. apply cause_weaken; intros H0;
+      [rewrite (existsb_true _ _ x Hx H0); apply orb_true_r|rewrite (existsb_true _ _ x Hx H0); apply orb_true_r].
+  - apply c_vector; [intros ->; reflexivity|]. intros x Hx. split; [apply frame_ser_dyn|].
+    eapply errs_weaken; [|apply IHe]. intros e0. apply cause_weaken; intros H0;
+      [rewrite (existsb_true _ _ x Hx H0); apply orb_true_r|rewrite (existsb_true _ _ x Hx H0); apply orb_true_r].
+  - apply c_vector; [intros ->; reflexivity|]. intros x Hx. split; [apply frame_ser_dyn|].
+    eapply errs_weaken; [|apply IHe]. intros e0. apply cause_weaken; intros H0;
+      [rewrite (existsb_true _ _ x Hx H0); apply orb_true_r|rewrite (existsb_true _ _ x Hx H0); apply orb_true_r].
+Qed.
+
+(* ---- every carrier ---- *)
+
+Fixpoint vlm_go (f : carrier -> ctype -> kval -> bool) (ks : list carrier) (ts : list ctype) (vs : list kval) : bool :=
+  match ks, ts, vs with
+  | k1 :: ks', t1 :: ts', v1 :: vs' => f k1 t1 v1 || vlm_go f ks' ts' vs'
+  | _, _, _ => false
+  end.
+Lemma val_len_mis_tuple ks ts vs : val_len_mis (KTuple ks) (TTuple ts) (VTup vs) = vlm_go val_len_mis ks ts vs.
+Proof.
+  cbn [val_len_mis]. revert ts vs. induction ks as [|k1 ks' IH]; intros ts vs; [reflexivity|].
+  destruct ts as [|t1 ts']; [reflexivity|]. destruct vs as [|v1 vs']; [reflexivity|].
+  cbn [vlm_go]. now rewrite <- IH.
+Qed.
+
+Lemma c_tuple_go (f : carrier -> ctype -> kval -> writer) (m : carrier -> ctype -> kval -> bool) ks :
+  Forall (fun k => forall t v, frame (f k t v) /\ errs_in (cause (m k t v) (kv_big v)) (f k t v)) ks ->
+  forall ts vs, errs_in (cause (vlm_go m ks ts vs) (existsb kv_big vs)) (tuple_go f ks ts vs).
+Proof.
+  induction 1 as [|k1 ks' Hk Hks IH]; intros ts vs.
+  - destruct vs; [apply in_ok|apply c_fail; discriminate].
+  - destruct ts as [|t1 ts']; [apply c_fail; discriminate|]. destruct vs as [|v1 vs']; [apply c_fail; discriminate|].
+    cbn [tuple_go vlm_go existsb]. apply in_then.
+    + apply frame_tuple_go. eapply Forall_impl; [|exact Hks]. intros a Ha t v. apply Ha.
+    + eapply errs_weaken; [|apply Hk]. intros e. apply cause_weaken; intros ->; reflexivity.
+    + eapply errs_weaken; [|apply IH]. intros e. apply cause_weaken; intros ->; apply orb_true_r.
+Qed.
+
+Theorem ser_buf_cause k : forall ws t v, errs_in (cause (val_len_mis k t v) (kv_big v)) (ser_buf k ws t v).
+Proof.
+  induction k using carrier_ind'; intros ws t v.
+  all: try (destruct v; try (apply c_fail; discriminate); rewrite ser_buf_tuple; destruct t; try (apply c_fail; discriminate);
+            destruct (_ <? _)%nat; [apply c_fail; discriminate|]; rewrite val_len_mis_tuple; cbn [kv_big];
+            apply c_builder; [apply frame_tuple_go, Forall_forall; intros; apply frame_ser_buf|];
+            apply c_tuple_go; eapply Forall_impl; [|eassumption]; intros a Ha t' v'; split; [apply frame_ser_buf|apply Ha]).
+  all: cbn [ser_buf]; try (apply c_fail; discriminate).
+  - destruct b; destruct v; try (apply c_fail; discriminate); try apply c_ser_leaf; apply in_append.
+  - destruct v; try (apply c_fail; discriminate). cbn [val_len_mis kv_big]. apply ser_dyn_cause.
+  - destruct v; try (apply c_fail; discriminate); [apply in_append|cbn [val_len_mis kv_big]; apply IHk].
+  - destruct v; try (apply c_fail; discriminate); [apply in_append|cbn [val_len_mis kv_big]; apply IHk].
+  - destruct (negb _); [apply c_fail; discriminate|].
+    destruct v; try (apply c_fail; discriminate); [apply c_set_value|cbn [val_len_mis kv_big]; apply IHk].
+  - destruct v; try (apply c_fail; discriminate); cbn [val_len_mis kv_big]; apply IHk.
+  - destruct v; try (apply c_fail; discriminate); cbn [val_len_mis kv_big]; apply IHk.
+  - destruct v; try (apply c_fail; discriminate); cbn [val_len_mis kv_big]; apply IHk.
+  - destruct v; try (apply c_fail; discriminate); cbn [val_len_mis kv_big]; apply IHk.
+  - destruct v; try (apply c_fail; discriminate); cbn [val_len_mis kv_big]; apply IHk.
+  - destruct v; try (apply c_fail; discriminate); cbn [val_len_mis kv_big]; apply IHk.
+  - destruct v; try (apply c_fail; discriminate). cbn [val_len_mis kv_big]. destruct t; try (apply c_fail; discriminate).
+    + apply c_sequence; [intros ->; reflexivity|]. intros x Hx. split; [apply frame_ser_buf|].
+      eapply errs_weaken; [|apply IHk]. intros e0. apply cause_weaken; intros H0;
+        [apply (existsb_true _ _ x Hx H0)|rewrite (existsb_true _ _ x Hx H0); apply orb_true_r].
+    + apply c_sequence; [intros ->; reflexivity|]. intros x Hx. split; [apply frame_ser_buf|].
+      eapply errs_weaken; [|apply IHk]. intros e0. apply cause_weaken; intros H0;
+        [apply (existsb_true _ _ x Hx H0)|rewrite (existsb_true _ _ x Hx H0); apply orb_true_r].
+    + apply c_vector; [intros ->; reflexivity|]. intros x Hx. split; [apply frame_ser_buf|].
+      eapply errs_weaken; [|apply IHk]. intros e0. apply cause_weaken; intros H0;
+        rewrite (existsb_true _ _ x Hx H0); apply orb_true_r.
+  - destruct v; try (apply c_fail; discriminate). cbn [val_len_mis kv_big]. destruct t; try (apply c_fail; discriminate).
+    + apply c_sequence; [intros ->; reflexivity|]. intros x Hx. split; [apply frame_ser_buf|].
+      eapply errs_weaken; [|apply IHk]. intros e0. apply cause_weaken; intros H0;
+        [apply (existsb_true _ _ x Hx H0)|rewrite (existsb_true _ _ x Hx H0); apply orb_true_r].
+    + apply c_sequence; [intros ->; reflexivity|]. intros x Hx. split; [apply frame_ser_buf|].
+      eapply errs_weaken; [|apply IHk]. intros e0. apply cause_weaken; intros H0;
+        [apply (existsb_true _ _ x Hx H0)|rewrite (existsb_true _ _ x Hx H0); apply orb_true_r].
+    + apply c_vector; [intros ->; reflexivity|]. intros x Hx. split; [apply frame_ser_buf|].
+      eapply errs_weaken; [|apply IHk]. intros e0. apply cause_weaken; intros H0;
+        rewrite (existsb_true _ _ x Hx H0); apply orb_true_r.
+  - destruct v; try (apply c_fail; discriminate). cbn [val_len_mis kv_big]. destruct t; try (apply c_fail; discriminate);
+      (apply c_sequence; [intros ->; reflexivity|]; intros x Hx; split; [apply frame_ser_buf|];
+       eapply errs_weaken; [|apply IHk]; intros e0; apply cause_weaken; intros H0;
+       [apply (existsb_true _ _ x Hx H0)|rewrite (existsb_true _ _ x Hx H0); apply orb_true_r]).
+  - destruct v; try (apply c_fail; discriminate). cbn [val_len_mis kv_big]. destruct t; try (apply c_fail; discriminate);
+      (apply c_sequence; [intros ->; reflexivity|]; intros x Hx; split; [apply frame_ser_buf|];
+       eapply errs_weaken; [|apply IHk]; intros e0; apply cause_weaken; intros H0;
+       [apply (existsb_true _ _ x Hx H0)|rewrite (existsb_true _ _ x Hx H0); apply orb_true_r]).
+  - destruct v; try (apply c_fail; discriminate). cbn [val_len_mis kv_big]. destruct t; try (apply c_fail; discriminate).
+    apply c_mapping; [intros ->; reflexivity|]. intros kv Hkv.
+    split; (split; [apply frame_ser_buf|]); (eapply errs_weaken; [|first [apply IHk1|apply IHk2]]); intros e0; apply cause_weaken; intros H0.
+    + apply (existsb_true _ _ kv Hkv). now rewrite H0.
+    + rewrite (existsb_true (fun kv => kv_big (fst kv) || kv_big (snd kv)) _ kv Hkv); [apply orb_true_r|now rewrite H0].
+    + apply (existsb_true _ _ kv Hkv). rewrite H0. apply orb_true_r.
+    + rewrite (existsb_true (fun kv => kv_big (fst kv) || kv_big (snd kv)) _ kv Hkv); [apply orb_true_r|rewrite H0; apply orb_true_r].
+  - destruct v; try (apply c_fail; discriminate). cbn [val_len_mis kv_big]. destruct t; try (apply c_fail; discriminate).
+    apply c_mapping; [intros ->; reflexivity|]. intros kv Hkv.
+    split; (split; [apply frame_ser_buf|]); (eapply errs_weaken; [|first [apply IHk1|apply IHk2]]); intros e0; apply cause_weaken; intros H0.
+    + apply (existsb_true _ _ kv Hkv). now rewrite H0.
+    + rewrite (existsb_true (fun kv => kv_big (fst kv) || kv_big (snd kv)) _ kv Hkv); [apply orb_true_r|now rewrite H0].
+    + apply (existsb_true _ _ kv Hkv). rewrite H0. apply orb_true_r.
+    + rewrite (existsb_true (fun kv => kv_big (fst kv) || kv_big (snd kv)) _ kv Hkv); [apply orb_true_r|rewrite H0; apply orb_true_r].
+Qed.
+
+(* ---- the refusal named: which error, and when one of the pre-empting checks can be the one ---- *)
+
+(* the error by which a value is refused: a type-check error (or the failed conversion of a leaf);
+   VectorLen - only if some vector position has the wrong length; TooManyElements - only if some
+   collection has more than i32::MAX elements; SizeOverflow - a cell of more than i32::MAX bytes
+   (set_value / finish; reachable from 2 GiB of data on).  The last three are checked before /
+   between the element checks and can therefore pre-empt a type-check error further right. *)
+Definition refusal_named (lenmis big : bool) (e : kerr) : Prop :=
+  is_typeck e = true \/ e = KE_ValueOverflow \/ (e = KE SE_VectorLen /\ lenmis = true) \/
+  (e = KE SE_TooManyElements /\ big = true) \/ e = KE SE_SizeOverflow.
+
+Lemma name_refusal lenmis big e : e <> KE_IllTyped -> cause lenmis big e -> refusal_named lenmis big e.
+Proof.
+  intros Hn [C1 C2]. unfold refusal_named. destruct e as [se| |]; [|auto|congruence].
+  destruct se; cbn; auto;
+    try (right; right; right; right; reflexivity);
+    try (right; right; right; left; split; [reflexivity|now apply C2]);
+    try (right; right; left; split; [reflexivity|now apply C1]).
+Qed.
+
+Theorem val_reject_named k ws t v : has_carrier k v = true -> val_lax k t v = false ->
+  exists e, snd (ser_buf k ws t v []) = Some e /\ refusal_named (val_len_mis k t v) (kv_big v) e.
+Proof.
+  intros Hv Hf. destruct (val_reject_lax k ws t v Hv Hf) as [e He]. exists e. split; [exact He|].
+  apply name_refusal; [exact (real_ser_buf k ws t v Hv e He)|exact (ser_buf_cause k ws t v e He)].
+Qed.
+
+(* in particular: right lengths, no oversized collection, no 2 GiB cell - then a type-check error
+   (or the failed conversion) it is *)
+Corollary val_reject_typeck k ws t v e : has_carrier k v = true -> val_lax k t v = false ->
+  val_len_mis k t v = false -> kv_big v = false -> snd (ser_buf k ws t v []) = Some e -> e <> KE SE_SizeOverflow ->
+  is_typeck e = true \/ e = KE_ValueOverflow.
+Proof.
+  intros Hv Hf Hl Hb He Hs.
+  pose proof (name_refusal _ _ e (real_ser_buf k ws t v Hv e He) (ser_buf_cause k ws t v e He)) as H.
+  destruct H as [H|[H|[[_ H]|[[_ H]|H]]]]; auto; congruence.
+Qed.
+
+Theorem reject_complete_named k ws t v : has_carrier k v = true -> populated v = true -> ser_accepts k t = false ->
+  exists e, snd (ser_buf k ws t v []) = Some e /\ refusal_named (val_len_mis k t v) (kv_big v) e.
+Proof.
+  intros Hv Hp Ha. destruct (reject_complete k ws t v Hv Hp Ha) as [e He]. exists e. split; [exact He|].
+  apply name_refusal; [exact (real_ser_buf k ws t v Hv e He)|exact (ser_buf_cause k ws t v e He)].
+Qed.
+
+Theorem dyn_reject_named t ws v : dyn_lax t v = false ->
+  exists e, snd (ser_dyn ws t v []) = Some e /\ refusal_named (dyn_len_mis t v) (cval_big v) e.
+Proof.
+  intros Hf. destruct (dyn_reject_lax t ws v Hf) as [e He]. exists e. split; [exact He|].
+  apply name_refusal; [exact (real_ser_dyn t ws v e He)|exact (ser_dyn_cause t ws v e He)].
 Qed.
